@@ -36,6 +36,11 @@ def keptOf (s : State) : Nat :=
 /-- what a persistent queue still holds when shutdown has returned: the requests never dispatched and the kept ones -/
 def storedOf (s : State) : Nat := (queueItems s.queue).length + keptOf s
 
+/-- `exporter_enqueue_failed_*` contribution of `wait_for_result`: `memoryQueue.Offer` returns what the request's `Done` received,
+and `obsQueue.Offer` counts every error of `Offer` — so the items of a request whose export failed are added here as well -/
+def enqFailedWfrOf (s : State) : Nat :=
+  if s.cfg.wfr then ((s.results.filter (·.2)).map (·.1.length)).sum else 0
+
 /-! ## counters predicted from a recorded trace -/
 
 structure XC where
